@@ -76,6 +76,23 @@ def gen(seed, tier):
                 seps = [i for i, c in enumerate(b) if c in (0x2C, 0x2A)]
                 del b[r.choice(seps)]
             imp(bytes(b))
+        # field corruptions WITH a recomputed checksum (a sentence whose only fault is a non-hexadecimal field must still be refused):
+        # blanks, signs, 0x prefixes, letters just outside the hex range, separators inside fields
+        star = s.rindex(b'*')
+        for _ in range(30):
+            b = bytearray(s[:star])
+            pos = r.randrange(7, len(b))
+            kind = r.random()
+            if kind < 0.6:
+                b[pos] = r.choice(b' +-xXgG@`/:;.\t_') if r.random() < 0.8 else r.randint(1, 255)
+            elif kind < 0.8 and pos + 1 < len(b):
+                b[pos:pos + 2] = r.choice([b'0x', b'0X', b' 1', b'+1', b'-1', b'\t1', b'1 ', b'1+'])
+            else:
+                b[pos] = b[pos] ^ 0x20
+            ck = 0
+            for c in b[1:]:
+                ck ^= c
+            imp(bytes(b) + b'*%02X' % ck)
         # wrong / lower-case checksum, text after the checksum
         imp(s[:-2] + b'00'); imp(s[:-2] + s[-2:].lower()); imp(s + b'\r\n'); imp(s + b'*00'); imp(s[:-3]); imp(s[:-3] + b',' + s[-2:])
     # over-long data (224..260 bytes) and odd digit counts
